@@ -1,7 +1,108 @@
-import VermouthModel.Proto
-open Proto
+import VermouthModel.C07
+open Proto C07
 
-/-- placeholder driver for C07: replaced when the model is written -/
-def handle (_ : Unit) (_ : List Tok) : Unit × String := ((), "bad-op")
+/-
+requests
+  run <files> <ops>                       -> per op: [ res pending snapshot ]
+  cli <level> <counter> <specs> <files> <opens>  -> exit code, pending, snapshot
+  free <files> <path>                     -> rendered first free path
+path   := [ 0 xname ] | [ 1 path n ] | [ 2 k ]
+file   := [ path xcontent ]
+op     := [ 0 path mode xdata ] | [ 1 fuel|- ] | [ 2 ]
+mode   := 0 r | 1 w | 2 a | 3 r+ | 4 w+ | 5 a+ | 6 x
+Contents are strings whose characters stand for bytes (latin-1) or opaque digests.
+-/
+
+partial def pathOf (t : Tok) : Option Path := do
+  match ← t.list? with
+  | [Tok.int 0, n] => pure (Path.base (← n.str?))
+  | [Tok.int 1, p, n] => pure (Path.bak (← pathOf p) (← n.nat?))
+  | [Tok.int 2, k] => pure (Path.tmp (← k.nat?))
+  | _ => none
+
+def render : Path → String
+  | .base n => n
+  | .bak p n => "#" ++ render p ++ "." ++ toString n ++ "#"
+  | .tmp k => "tmp/" ++ toString k
+
+def modeOf (t : Tok) : Option Mode := do
+  match ← t.nat? with
+  | 0 => pure .r | 1 => pure .w | 2 => pure .a | 3 => pure .rp | 4 => pure .wp | 5 => pure .ap | 6 => pure .x
+  | _ => none
+
+def modeNo : Mode → Nat
+  | .r => 0 | .w => 1 | .a => 2 | .rp => 3 | .wp => 4 | .ap => 5 | .x => 6
+
+def fileOf (t : Tok) : Option (Path × Bytes) := do
+  match ← t.list? with
+  | [p, c] => pure (← pathOf p, (← c.str?).toList)
+  | _ => none
+
+def opOf (t : Tok) : Option Op := do
+  match ← t.list? with
+  | [Tok.int 0, p, m, d] => pure (Op.open (← pathOf p) (← modeOf m) (← d.str?).toList)
+  | [Tok.int 1, Tok.none] => pure (Op.finalize none)
+  | [Tok.int 1, k] => pure (Op.finalize (some (← k.nat?)))
+  | [Tok.int 2] => pure Op.close
+  | _ => none
+
+def openReqOf (t : Tok) : Option OpenReq := do
+  match ← t.list? with
+  | [p, m, d] => pure (← pathOf p, ← modeOf m, (← d.str?).toList)
+  | _ => none
+
+def encRes : Res → String
+  | .ok => "ok"
+  | .content c => "content:" ++ encStr (String.ofList c)
+  | .notFound => "notfound"
+  | .fileExists => "exists"
+  | .keyError => "keyerror"
+
+def snapshot (fs : FS) : String :=
+  let l := fs.map (fun kv => (render kv.1, String.ofList kv.2))
+  let l := l.mergeSort (fun a b => decide (a.1 ≤ b.1))
+  encList (l.map fun kv => encList [encStr kv.1, encStr kv.2])
+
+def encPending (l : List Entry) : String :=
+  encList (l.map fun e => encList [encNat e.tmp, encStr (render e.dest), encNat (modeNo e.mode)])
+
+def entryOf (t : Tok) : Option C08.Entry := do
+  match ← t.list? with
+  | [l, ty, c] => pure { level := ← l.nat?, type := ← ty.str?, count := ← c.nat? }
+  | _ => none
+
+def specOf (t : Tok) : Option C08.Spec := do
+  match ← t.list? with
+  | [ty, c] => pure (← ty.optStr?, ← c.optInt?)
+  | _ => none
+
+def runAll (st : State) : List Op → List String
+  | [] => []
+  | o :: rest =>
+      let (st', r) := stepOp st o
+      encList [encRes r, encPending st'.pending, snapshot st'.fs] :: runAll st' rest
+
+def handle (_ : Unit) (toks : List Tok) : Unit × String :=
+  let r : Option String :=
+    match toks with
+    | [Tok.str "run", files, ops] => do
+        let fs ← (← files.list?).mapM fileOf
+        let os ← (← ops.list?).mapM opOf
+        pure (encList (runAll (init fs) os))
+    | [Tok.str "cli", lvl, counter, specs, files, opens] => do
+        let level ← lvl.nat?
+        let es ← (← counter.list?).mapM entryOf
+        let ss ← (← specs.list?).mapM (fun g => do (← g.list?).mapM specOf)
+        let fs ← (← files.list?).mapM fileOf
+        let os ← (← opens.list?).mapM openReqOf
+        let (st, code) := cliRun fs os es ss level
+        -- the temporary files are not part of the observable result
+        let user := st.fs.filter (fun kv => !kv.1.isTmp)
+        pure (encList [encNat code, encInt (C08.leftover es ss level), snapshot user])
+    | [Tok.str "free", files, p] => do
+        let fs ← (← files.list?).mapM fileOf
+        pure (encStr (render (firstFree fs (← pathOf p))))
+    | _ => none
+  ((), r.getD "bad-op")
 
 def main : IO Unit := runDriver handle ()
